@@ -13,7 +13,7 @@
               everything after the colon
  Termination/promptness for every truncated stream and fidelity of bodies are not decided."""
 import os
-import ir, q, cfg as cfgm, bytesets
+import ir, q, bounded, cfg as cfgm, bytesets
 from ir import strip, strip_lv, const_val, T, pe, walk_expr, fn_exprs, AnalysisBroken
 from core import fwhere
 
@@ -306,20 +306,36 @@ def check_lookahead(ctx, prog):
             if j == 0:
                 continue
             n += 1
-            allowed = None
-            for c, pol, kind in g.of(e):
-                cc = strip(c)
-                if kind == 'after' and pol is False and cc.get('k') == 'bin' and cc.get('op') in ('>', '>=') and strip(cc['x']).get('id') == ix.get('id'):
-                    r = strip(cc['y'])
-                    m = 0
-                    if r.get('k') == 'bin' and r.get('op') == '-' and const_val(r['y']) is not None:
-                        m = const_val(r['y'])
-                        r = strip(r['x'])
-                    if r.get('k') == 'call' and (r.get('pq') or '').endswith('::length'):
-                        allowed = m - (1 if cc['op'] == '>=' else 0)
             ctx.evaluations += 1
-            ctx.check(allowed is not None and j <= allowed, 'C09.lookahead', f['pq'], 'decode:look-ahead q0[i + %d]' % j, fwhere(f, e['l']), 'dominated by i <= length - %s' % allowed,
-                      'Url::decode reads q0[i + %d] but the dominating guard only establishes i + %s <= length(): a trailing %% reads past the terminator' % (j, allowed))
+            role = 'decode:look-ahead q0[i + %d]' % j
+            # decided by evaluation: bind the index and the length to every pair of a small grid, drop the pairs a dominating
+            # guard excludes, require 0 <= index <= length (the terminator may be read)
+            try:
+                by_id, by_text = bounded.atoms_of(prog, f, e['a'][0], allow_assigned=(ix.get('id'),))
+            except bounded.Undecidable as u:
+                ctx.undecided('C09.lookahead', f['pq'], role, fwhere(f, e['l']), str(u))
+                continue
+            lens = set(pe(w) for w in fn_exprs(f) if w.get('k') == 'call' and (w.get('pq') or '').endswith('::length') and strip(w.get('obj') or {}).get('id') == src)
+            if len(lens) != 1:
+                ctx.violation('C09.lookahead', f['pq'], role, fwhere(f, e['l']), 'Url::decode reads q0[i + %d] but never consults the length of its input: a trailing %% reads past the terminator' % j)
+                continue
+            lt = list(lens)[0]
+            by_text[lt] = None
+            wr = bounded.writes_between(g, f, set(by_id), g.of(e), e)
+            if wr is not None:
+                ctx.undecided('C09.lookahead', f['pq'], role, fwhere(f, e['l']), 'the index is modified (line %s) between its guard and this read' % wr.get('l'))
+                continue
+            index = e['a'][0]
+            st, info = bounded.decide(prog, f, g.of(e), lambda ev: 0 <= ev.ev(index) <= ev.by_text[lt], by_id, by_text, range(0, 9), G=g)
+            if st == 'undecided':
+                ctx.undecided('C09.lookahead', f['pq'], role, fwhere(f, e['l']), info)
+            elif st == 'holds' and info:
+                ctx.ok('C09.lookahead', f['pq'], role, fwhere(f, e['l']), 'for every (index, length) pair the guards admit (%d of the grid), the index stays within [0, length]' % info)
+            elif st == 'holds':
+                ctx.undecided('C09.lookahead', f['pq'], role, fwhere(f, e['l']), 'no (index, length) pair reaches the read')
+            else:
+                ctx.violation('C09.lookahead', f['pq'], role, fwhere(f, e['l']), 'Url::decode reads q0[i + %d] although its guards admit %s: a trailing %% reads past the terminator' % (
+                    j, ', '.join('%s = %s' % kv for kv in sorted(info.items()))))
     ctx.floor('C09.lookahead decode', n, 2)
     # decoded characters are appended only when non-zero (a NUL would hide the rest from the C-string based '..' check)
     g = q.Guarded(f)
